@@ -28,9 +28,18 @@ int keep (mixed a) { return 1; }
 mixed same (mixed a) { return a; }
 mixed raise (mixed a) { error ("c06 in callback\n"); return a; }
 
+// "builder aborted half-way": callbacks that raise after a few calls, while the efun holds a partial result
+int cnt;
+mixed cb_raise (mixed x) { if (cnt-- <= 0) error ("c06 half-way\n"); return ({ x }); }
+int cb_keep (mixed x) { if (cnt-- <= 0) error ("c06 half-way\n"); return 1; }
+int cb_cmp (mixed x, mixed y) { if (cnt-- <= 0) error ("c06 half-way\n"); return cnt & 1 ? -1 : 1; }
+mixed three (mixed x, mixed y, mixed z) { return ({ x, y, z }); }
+
 // efuns / operators applied to slot values, results dropped; errors are caught
 void run_efun (int f, mixed a, mixed b) {
   mixed r;
+  string s1, s2;
+  int i1;
   switch (f) {
   case 0: r = sizeof (a); break;
   case 1: r = copy (a); break;
@@ -52,6 +61,32 @@ void run_efun (int f, mixed a, mixed b) {
   case 17: r = typeof (a) + typeof (b); break;
   case 18: if (arrayp (a)) foreach (mixed e in a) r = e; if (mapp (a)) foreach (mixed k, mixed e in a) r = ({ k, e }); break;
   case 19: r = ({ a }) + ({ b }); r -= ({ a }); break;
+  // ---- value builders aborted half-way (the partial result must be released) ----
+  case 20: cnt = 2; r = map_array (({ a, b, ({ a }), "s", 5 }), "cb_raise"); break;
+  case 21: cnt = 2; r = filter_array (({ ({ a }), b, ({ b }), "t" }), "cb_keep"); break;
+  case 22: cnt = 1; r = map_mapping (([ "k1" : a, "k2" : b, 3 : ({ a }) ]), (: cb_raise ($2) :)); break;
+  case 23: cnt = 1; r = filter_mapping (([ "k1" : a, ({ 1 }) : b, 7 : ({ b }) ]), (: cb_keep ($2) :)); break;
+  case 24: cnt = 3; r = sort_array (({ ({ a }), ({ b }), ({ 1 }), ({ 2 }), ({ 3 }) }), "cb_cmp"); break;
+  case 25: r = ({ ({ a }), ([ "k" : b ]), "lit" + sizeof (b), raise (a) }); break;
+  case 26: r = ([ "k" : ({ a }), ({ b }) : ([ 1 : a ]), "j" : raise (b) ]); break;
+  case 27: r = this_object ()->three (({ a }), ([ 1 : b ]), raise (a)); break;
+  case 28: r = sprintf ("%s %O %d", "x" + sizeof (a), b, "notanumber"); sprintf ("%d", 1); break;
+  case 29: r = ({ a, ({ b }) }) + raise (a); break;
+  case 30: s1 = "%s %d %" + "y"; r = sscanf ("ab 12 cd", s1, s2, i1); break;
+  case 31: r = allocate (5); r[0] = ({ a }); r[1] = allocate (-1); break;
+  case 32: foreach (mixed x in ({ ({ a }), ([ 2 : b ]), "s" + sizeof (a) })) { r = ({ x, r }); if (mapp (x)) raise (x); } break;
+  case 33: cnt = 2; r = unique_array (({ ({ a }), ({ b }), ({ 1 }), ({ 2 }) }), (: cb_raise :)); break;
+  case 34: r = regexp (({ "a" + sizeof (a), "b" }), "(" + "["); break;
+  case 35: r = "abc" + sizeof (a) + "def"; r = r + ({ a }); r = r + ([ ]); break;
+  case 36: cnt = 1; r = map_array (({ ({ a }), ({ b }) }), (: catch (cb_raise ($1)) ? ({ $1 }) : ({ $1, $1 }) :)); break;
+  case 37: r = explode ("a,b,c,d," + sizeof (a), ","); r = implode (r, (: raise ($1 + $2) :)); break;
+  case 38: r = restore_variable (save_variable (({ a && 1, "str", ([ "k" : ({ 1, "x" }), ({ 2 }) : "v" ]) }))[0..<4]); break;
+  case 40: r = sort_array (({ ({ a }), "s" + sizeof (a), 1, ({ b }) }), 1); break;          // built-in sort refuses a mixed array
+  case 41: r = sort_array (({ ({ ({ a }) }), ({ ({ b }) }) }), -1); break;                    // ... arrays whose 1st element is an array
+  case 42: cnt = 1; r = filter_array (({ ({ a }), ({ b }), "x" + sizeof (b) }), (: cb_keep :)); r = map_array (({ a, b }), (: $1 + raise ($1) :)); break;
+  case 43: r = implode (map_array (({ 1, 2, 3 }), (: "n" + $1 :)), (: $1 + ({ $2 }) :)); break;
+  case 44: r = save_variable (({ a, b, this_object () }))  + raise (a); break;
+  case 39: r = allocate_mapping (3); r["k"] = ({ a }); r[({ b })] = r["k"] + raise (b); break;
   }
 }
 
@@ -110,6 +145,8 @@ int do_op (string line) {
   case "drop": obs[a] = 0; break;
   case "call": hs[a] = obs[b]->docall (a, c, v[d], v[e]); break;
   case "rmcall": remove_call_out (hs[a]); break;
+  case "rmcalln": obs[b]->rmbyname (a); break;
+  case "rmall": obs[a]->rmallcalls (); break;
   case "sent": obs[b]->doact (a, v[c], v[d]); break;
   case "rmsent": obs[b]->rmact (a); break;
   case "newmstr": v[a] = w[2]; break;            // a run-time built (malloc) string
@@ -118,12 +155,14 @@ int do_op (string line) {
   case "sadd": v[a] = v[b] + c; break;           // string + number on a pushed copy
   case "schar": v[a][b] = w[3][0]; break;        // unlink_string_svalue + byte store
   case "srange": v[a][b..c] = w[4]; break;       // unlink_string_svalue + copy_lvalue_range
+  case "rest": catch (restore_variable (w[1])); break;      // value builder on a (possibly damaged) save text
+  case "resto": "/c06/robj"->rest (w[1]); break;            // the same through restore_object() of a file
   case "inp": obs[a]->doinput (v[b], v[c]); break;
   case "err": boom (v[a], v[b], 3); break;
   case "efun":
     catch (run_efun (a, v[b], v[c]));
     // (s)printf keeps its output buffers after an error and releases them on its next call
-    if (a == 7) sprintf ("%d", 1);
+    sprintf ("%d", 1);
     break;
   default: VL ("badop " + line);
   }
